@@ -75,7 +75,12 @@ fn main() {
     // criterion is independent of machine load: work unfinished, but no CPU time consumed for 8 s.
     let out2 = out.clone();
     let prop2 = prop.clone();
+    let tids: std::sync::Arc<std::sync::Mutex<Vec<u32>>> = Default::default();
+    let tids2 = std::sync::Arc::clone(&tids);
     let worker = std::thread::spawn(move || {
+    if let Some(t) = mmv::report::current_tid() {
+        tids2.lock().unwrap().push(t);
+    }
     let out = out2;
     let prop = prop2;
     let mut report = Report { engine: "seqmon".into(), ..Default::default() };
@@ -161,7 +166,7 @@ fn main() {
         report.write(&out);
     }
     });
-    let mut idle = mmv::report::IdleWatch::new(8);
+    let mut idle = mmv::report::IdleWatch::for_threads(8, tids);
     while !worker.is_finished() {
         std::thread::sleep(std::time::Duration::from_millis(50));
         if idle.idle() {
